@@ -13,7 +13,7 @@ use serde_json::{json, Value};
 
 pub const SEG_SMALL: u64 = 230;
 
-fn corner_cfgs(thresholds: &[u32], segs: &[u64], fsyncs: &[bool], dedups: &[bool]) -> Vec<NodeCfg> {
+pub(crate) fn corner_cfgs(thresholds: &[u32], segs: &[u64], fsyncs: &[bool], dedups: &[bool]) -> Vec<NodeCfg> {
     let mut v = Vec::new();
     for &threshold in thresholds {
         for &seg_size in segs {
@@ -43,16 +43,16 @@ fn corner_cfgs(thresholds: &[u32], segs: &[u64], fsyncs: &[bool], dedups: &[bool
 }
 
 fn c01_alphabet(cfg: &NodeCfg) -> Vec<Op> {
+    if cfg.expiry_us > 0 {
+        // retention corner: Send(5) fills and closes a small segment in one step
+        return vec![Op::Send(1), Op::Send(5), Op::Restart, Op::Advance(cfg.expiry_us + 1), Op::Maintain, Op::Flush];
+    }
     let mut a = vec![Op::Send(1), Op::Send(2), Op::Send(3), Op::Flush, Op::BgSave, Op::Restart, Op::Reject];
     if cfg.dedup {
         a.push(Op::SendIds(vec![1, 2, 1]));
         a.push(Op::SendIds(vec![2, 3]));
     } else {
         a.push(Op::Purge);
-    }
-    if cfg.expiry_us > 0 {
-        a.push(Op::Advance(cfg.expiry_us + 1));
-        a.push(Op::Maintain);
     }
     a
 }
@@ -62,13 +62,16 @@ fn c02_alphabet(_cfg: &NodeCfg) -> Vec<Op> {
 }
 
 fn c03_alphabet(cfg: &NodeCfg) -> Vec<Op> {
+    if cfg.expiry_us > 0 {
+        let mut a = vec![Op::Send(1), Op::Send(5), Op::Restart, Op::Advance(cfg.expiry_us + 1), Op::Maintain];
+        if cfg.nowait {
+            a.push(Op::RestartNoDrain);
+        }
+        return a;
+    }
     let mut a = vec![Op::Send(1), Op::Send(3), Op::Restart, Op::Flush, Op::Store(0), Op::BgSave];
     if cfg.nowait {
         a.push(Op::RestartNoDrain);
-    }
-    if cfg.expiry_us > 0 {
-        a.push(Op::Advance(cfg.expiry_us + 1));
-        a.push(Op::Maintain);
     }
     a
 }
@@ -78,7 +81,8 @@ pub fn plan(prop: &str, tier: &str) -> (PropMeta, Vec<Job>) {
     let (cfgs, depth, split, alpha): (Vec<NodeCfg>, usize, usize, fn(&NodeCfg) -> Vec<Op>) = match prop {
         "C01" => {
             let mut cfgs = if quick {
-                corner_cfgs(&[2], &[SEG_SMALL], &[false], &[false, true])
+                // the index cache is only consulted when reads go to disk: vary it with the cache off
+                corner_cfgs(&[2], &[SEG_SMALL], &[false], &[false, true]).into_iter().filter(|c| !(c.cache && !c.cache_idx)).collect()
             } else {
                 corner_cfgs(&[1, 2, 1000], &[SEG_SMALL, 1_000_000], &[false, true], &[false, true])
             };
@@ -134,7 +138,10 @@ pub fn plan(prop: &str, tier: &str) -> (PropMeta, Vec<Job>) {
         _ => unreachable!(),
     };
     let cap = if quick { 240 } else { 1500 };
-    let pj = make_jobs(prop, &cfgs, &|c| alpha(c), depth, split, cap);
+    let (ret, plain): (Vec<NodeCfg>, Vec<NodeCfg>) = cfgs.iter().cloned().partition(|c| c.expiry_us > 0);
+    let mut pj = make_jobs(prop, &plain, &|c| alpha(c), depth, split, cap);
+    // the retention corner has a smaller alphabet and needs one more step (fill, expire, pass, restart, send)
+    pj.extend(make_jobs(prop, &ret, &|c| alpha(c), depth + 1, split, cap));
     let jobs = pj
         .into_iter()
         .map(|j| Job { prop: prop.into(), tier: tier.into(), spec: serde_json::to_value(j).unwrap() })
@@ -153,6 +160,7 @@ pub fn plan(prop: &str, tier: &str) -> (PropMeta, Vec<Job>) {
         ),
         bounds: json!({
             "depth": depth,
+            "depth_retention_corner": depth + 1,
             "configurations": cfgs.iter().map(|c| c.label()).collect::<Vec<_>>(),
             "payload_bytes": 11,
             "segment_small_bytes": SEG_SMALL,
@@ -187,13 +195,17 @@ pub fn replay(prop: &str, r: &Value) -> Vec<Violation> {
     let scratch = Scratch::new("replay");
     let tpl = build_template(&scratch, &cfg, 2);
     let mut res = JobResult::default();
-    let mut o = factory(prop, &cfg);
-    run_history(prop, &scratch, &tpl, &hist, None, o.as_mut(), &mut res, false).into_iter().collect()
+    let mut o = match prop {
+        "C14" | "C15" | "C16" | "C18" => super::plogp2::factory(prop, &cfg),
+        _ => factory(prop, &cfg),
+    };
+    let tcp = r["tcp"].as_bool().unwrap_or(false);
+    run_history(prop, &scratch, &tpl, &hist, None, o.as_mut(), &mut res, false, None, tcp).into_iter().collect()
 }
 
 /// Updates the model from a step outcome. Returns Err only for contradictions that every
 /// log property forbids (an accepted "must be rejected" send).
-fn model_step(m: &mut LogModel, op: &Op, out: &StepOut, ctx: &mut StepCtx) -> Result<(), String> {
+pub(crate) fn model_step(m: &mut LogModel, op: &Op, out: &StepOut, ctx: &mut StepCtx) -> Result<(), String> {
     match (op, out) {
         (Op::Reject, StepOut::Sent { result, .. }) => {
             if result.is_ok() {
@@ -223,7 +235,7 @@ fn model_step(m: &mut LogModel, op: &Op, out: &StepOut, ctx: &mut StepCtx) -> Re
     Ok(())
 }
 
-fn vacuity(w: &mut World, ctx: &mut StepCtx) {
+pub(crate) fn vacuity(w: &mut World, ctx: &mut StepCtx) {
     if !ctx.canonical {
         return;
     }
@@ -251,14 +263,14 @@ fn vacuity(w: &mut World, ctx: &mut StepCtx) {
     }
 }
 
-fn coarse(cfg: &NodeCfg) -> String {
+pub(crate) fn coarse(cfg: &NodeCfg) -> String {
     format!(
         "cache={},nowait={},dedup={},cidx={}",
         cfg.cache as u8, cfg.nowait as u8, cfg.dedup as u8, cfg.cache_idx as u8
     )
 }
 
-fn msg_class(msg: &str) -> String {
+pub(crate) fn msg_class(msg: &str) -> String {
     // strip numbers so that the class does not depend on concrete offsets
     let mut s = String::new();
     let mut last_digit = false;
@@ -326,7 +338,7 @@ pub struct C02 {
     m: LogModel,
 }
 
-fn expect_eq(what: &str, got: &PollOut, want: &[u64], m: &mut LogModel) -> Result<(), String> {
+pub(crate) fn expect_eq(what: &str, got: &PollOut, want: &[u64], m: &mut LogModel) -> Result<(), String> {
     let offs: Vec<u64> = got.msgs.iter().map(|g| g.offset).collect();
     if offs != want {
         return Err(format!("{what}: returned offsets {offs:?}, the log slice is {want:?}"));
